@@ -13,12 +13,10 @@
 // from the result shape) or is a transposed view of rank >= 2 or the operand element types differ.  Unary: result size >= 2.
 // outer: both operands have >= 2 elements.  Incompatible-shape cases (Nothing expected) count as trivial.
 //
-// BOUNDS.  quick: all ordered shape pairs of S(1..3,2) (196, compatible and incompatible) + each broadcast pattern class in
-// extent-3 shapes (27 pairs, both orders); triples (where): S(1..2,2)^3 + a 7-shape extent-3 menu cubed; unary / scalar-side
-// shapes S(1..3,2) + 5 extent-3 shapes + one rank-4 shape; outer: (S(1..2,2) + 3 extent-3 shapes)^2.
-// thorough: all ordered pairs of S(1..3,3) (1521) + rank-4 pairs; triples S(1..3,2)^3 + an 11-shape menu cubed; unary S(1..3,3);
-// outer S(1..2,3)^2.  Element types and operand kinds per family: see the type lists below (all 64 ordered type pairs for
-// the arithmetic / comparison family with both operands ndarrays; the view / scalar kinds on 16 "primary" type pairs).
+// BOUNDS (shape alphabets in c07_driver.hpp).  quick: all ordered shape pairs of S(1..3,3) (1521, compatible and incompatible; with the
+// scalar operand kind this is DESIGN.md's S(0..3,3)); triples (where) S(1..3,2)^3 + S(1..2,3)^3; unary / scalar-side shapes S(1..3,3) + S(4,2);
+// outer S(1..2,3)^2.  thorough: pairs S(1..4,3)^2 (14400); triples S(1..3,3)^3; unary S(1..4,3); outer S(1..3,3)^2.
+// Element types and operand kinds per family: see the type lists below.
 //
 // NOT INSTANTIABLE on the pinned tree (compile-time rejection, therefore not checked): view::clip / array::clip with ANY array
 // operand (less() of run-time shapes is a maybe which where() does not accept; with fixed shapes greater() of the where view is
